@@ -714,14 +714,29 @@ func (*c07Prop) Run(cc Case) (v Verdict) {
 			m.checkAll()
 			v.Probes["requests:"+s.Kind]++
 			if s.Kind == "eval" && n != nil && m.viol == nil {
+				var firstVal string
 				for rep := 0; rep < 2 && m.viol == nil; rep++ {
 					m.stack = append(m.stack, frame{label: "evaluation of the result (interpreters)", idx: c.G.Root})
+					var val string
 					func() {
-						defer func() { recover() }() // an interpreter may panic on shapes it does not expect
-						parsley.EvaluateNode(nil, n)
+						defer func() {
+							if recover() != nil { // an interpreter may panic on shapes it does not expect
+								val = "panic"
+							}
+						}()
+						x, err := parsley.EvaluateNode(nil, n)
+						val = fmt.Sprintf("%v err=%v", x, err)
+						// the value belongs to the caller, who may do with it what it likes:
+						// the second evaluation must not see it
+						scribbleValue(x)
 					}()
 					m.checkAll()
 					m.stack = m.stack[:len(m.stack)-1]
+					if rep == 0 {
+						firstVal = val
+					} else if val != firstVal && m.viol == nil {
+						m.viol = &c07Violation{class: "frozen:value", detail: fmt.Sprintf("the value of the result was %s when first evaluated; after the caller had modified the value it received, a second evaluation of the same node gives %s", clip(firstVal), clip(val))}
+					}
 				}
 			}
 			if m.viol != nil {
@@ -869,4 +884,26 @@ func (*c07Prop) Shrink(cc Case) []Case {
 		out = append(out, k)
 	}
 	return out
+}
+
+// scribbleValue overwrites every aggregate of an evaluated value in place (reverses slices,
+// clears maps): what a caller owning the value may do.
+func scribbleValue(x interface{}) {
+	switch v := x.(type) {
+	case []interface{}:
+		for _, e := range v {
+			scribbleValue(e)
+		}
+		for i, j := 0, len(v)-1; i < j; i, j = i+1, j-1 {
+			v[i], v[j] = v[j], v[i]
+		}
+		if len(v) == 1 {
+			v[0] = "scribbled"
+		}
+	case map[string]interface{}:
+		for k, e := range v {
+			scribbleValue(e)
+			delete(v, k)
+		}
+	}
 }
